@@ -409,17 +409,17 @@ class World:
         m = self.markets["opt"]
         book = m.market_status.data
         size = D(int(book.loc["C"].asks[0][1])) / 2
-        m.buy("C", size)
-        m.buy("P", D(2))
+        m.buy("C", size)                                   # market order
+        m.buy("P", D(2), max_mark_price_multiple=D(3))     # capped order (another path through the visible book)
 
     def _deribit_adjust(self, s):
         m = self.markets["opt"]
         held = [k for k in ("C", "P") if k in m.positions]
         if not held:
-            m.buy("P", D(1))
+            m.buy("P", D(1), price_in_token=D(str(m.market_status.data.loc["P"].asks[0][0])))   # limit order at the best ask
             return
         k = held[0]
-        m.sell(k, max(D(1), (m.positions[k].amount / 2).to_integral_value()))
+        m.sell(k, max(D(1), (m.positions[k].amount / 2).to_integral_value()), max_mark_price_multiple=D(3))
 
     def _deribit_close(self, s):
         m = self.markets["opt"]
